@@ -265,6 +265,14 @@ def run(tier):
         items.append((size, prog, "return-chain", inputs))
     for size, prog, inputs, lab in gen_ctrl.typed_chains(3 if tier == "quick" else 4):
         items.append((size, prog, "typed-chain", inputs))
+    # byte-string variables written on some paths only and consumed by a bytes opcode: whatever compiles must not
+    # meet an unset slot (the integer 0) there
+    from ..recipe import gen_init
+    ig = gen_init.Grammar(["Sa", "La", "Sb", "Lb"], ["cin"])
+    for k, b in ig.programs(4 if tier == "quick" else 5):
+        if gen_init.uses_var(b):
+            for placement in ("main", "sub"):
+                items.append((k, gen_init.make_program(b, placement, "bytes"), "init-bytes", basic))
     # control transfers inside an operand (Break / Continue / Return while sibling operands are pending)
     from ..recipe import gen_xfer
     for size, prog, inputs, meta in gen_xfer.programs():
